@@ -22,10 +22,11 @@ type c06X struct {
 	MailOK      bool   // reference: MAIL must be accepted
 	Expect      []string
 	Pre         int
-	Prelude     int  // an earlier transaction on the same connection: 0 none, 1 BDAT completed within the limit, 2 a chunk then RSET, 3 BDAT refused for its size, 4 DATA completed within the limit
-	MailIdx     int  // index of the reply to the judged MAIL
-	ReadOn      bool // DATA: the client pauses past ReadTimeout inside the message, the backend takes the timeout as temporary and reads on
-	DataIdx     int  // index of the judged message among the backend\'s Data calls
+	Huge        string // a BDAT command with this size (>= 2^63, no payload) in front of the message's chunks ("" = none); only the bound is judged then
+	Prelude     int    // an earlier transaction on the same connection: 0 none, 1 BDAT completed within the limit, 2 a chunk then RSET, 3 BDAT refused for its size, 4 DATA completed within the limit
+	MailIdx     int    // index of the reply to the judged MAIL
+	ReadOn      bool   // DATA: the client pauses past ReadTimeout inside the message, the backend takes the timeout as temporary and reads on
+	DataIdx     int    // index of the judged message among the backend\'s Data calls
 	NFinal      int
 }
 
@@ -208,6 +209,12 @@ func genC06(t *Tape, tier string) *Scenario {
 			off := 0
 			sum := 0
 			open := true
+			if t.Chance(1, 6) {
+				// A chunk size that does not fit 63 bits, announced without a payload: whatever the
+				// server makes of it (501, 552, end of the transaction), it must not buy octets.
+				x.Huge = []string{"9223372036854775808", "18446744073709551615", fmt.Sprint(uint64(1<<64 - 1 - uint64(50+t.Intn(200)))), fmt.Sprint(uint64(1<<63) + uint64(x.N))}[t.Intn(4)]
+				steps = append(steps, Step{Kind: kBdat, Data: line("BDAT %s", x.Huge), Wait: w()})
+			}
 			for i, c := range x.Chunks {
 				last := i == len(x.Chunks)-1
 				cmd := fmt.Sprintf("BDAT %d", c)
@@ -284,13 +291,13 @@ func checkC06(sc *Scenario, h *History) []Violation {
 	if len(out) > 0 {
 		return out
 	}
-	if x.ReadOn {
+	if x.ReadOn || x.Huge != "" {
 		// only the bound itself is judged: never more than N octets, never complete when longer
 		evs := dataEvents(h, 0)
 		if len(evs) > x.DataIdx {
 			ev := evs[x.DataIdx]
 			if len(ev.Read) > x.N {
-				out = append(out, Violation{Rule: "C06.bound", Detail: fmt.Sprintf("backend read %d octets with a limit of %d (it read on after a timeout inside the message)", len(ev.Read), x.N), Witness: wit})
+				out = append(out, Violation{Rule: "C06.bound", Detail: fmt.Sprintf("backend read %d octets with a limit of %d (readOnAfterTimeout=%v, BDAT %s first)", len(ev.Read), x.N, x.ReadOn, x.Huge), Witness: wit})
 			}
 			if !bytes.HasPrefix(x.Msg, ev.Read) {
 				out = append(out, Violation{Rule: "C06.octets", Detail: "backend octets are not a prefix of the message", Witness: wit})
@@ -400,6 +407,9 @@ func classifyC06(sc *Scenario, h *History, st *Stats) string {
 			}
 		}
 	}
+	if x.Huge != "" {
+		st.Probes["chunk_size_beyond_63_bits_announced_first"]++
+	}
 	if x.Prelude > 0 {
 		st.Probes["earlier_transaction_"+[]string{"", "BDAT_completed", "chunk_then_RSET", "BDAT_refused_for_size", "DATA_completed"}[x.Prelude]]++
 	}
@@ -409,7 +419,7 @@ func classifyC06(sc *Scenario, h *History, st *Stats) string {
 func init() {
 	register(&Property{
 		ID: "C06", Level: "exploration",
-		Rule:     "limits N in 8..24 (systematic) and {32,48,64,5000}; message sizes N-2..N+2 and about 10N (no leading dots, so wire and backend size agree); via DATA and via every BDAT chunk count 1..4 with drawn cut points (LAST sometimes on an empty chunk); MAIL with SIZE= N-1, N, N+1 (a third of them with leading zeros, up to the 20 digits RFC 1870 allows), 2^32-1, an 11-digit value and malformed values; backend read sizes, segmentation, SMTP/LMTP drawn. After the message: a DATA probe (must be refused: envelope gone), a MAIL marker, QUIT. Every case is non-trivial (it sits on or next to the boundary); distinct by (N, size, form, chunking, SIZE kind, mode, read sizes).",
+		Rule:     "limits N in 8..24 (systematic) and {32,48,64,5000}; message sizes N-2..N+2 and about 10N (no leading dots, so wire and backend size agree); via DATA and via every BDAT chunk count 1..4 with drawn cut points (LAST sometimes on an empty chunk); MAIL with SIZE= N-1, N, N+1 (a third of them with leading zeros, up to the 20 digits RFC 1870 allows), 2^32-1, an 11-digit value and malformed values; in a sixth of the chunked cases a BDAT command with a size of 2^63 or more (no payload) comes first and only the bound is judged; backend read sizes, segmentation, SMTP/LMTP drawn. After the message: a DATA probe (must be refused: envelope gone), a MAIL marker, QUIT. Every case is non-trivial (it sits on or next to the boundary); distinct by (N, size, form, chunking, SIZE kind, mode, read sizes).",
 		Gen:      genC06,
 		Check:    checkC06,
 		Classify: classifyC06,
@@ -433,7 +443,7 @@ func init() {
 		Real:        []string{"smtp.Server.Serve/handleConn", "smtp.Conn handleMail SIZE check, handleData, handleBdat", "dataReader budget", "io.Pipe", "net/textproto", "bufio"},
 		Stub:        []string{"net.Listener (SimListener)", "net.Conn (SimConn)", "Backend/Session (SimBackend; returns the reader's error like io.ReadAll-based backends)", "clock (synctest)", "SMTP client (raw driver)"},
 		Assumptions: []string{"message size is judged on messages without dot-stuffing, where wire size and backend size coincide", "the backend propagates a reader error as its verdict"},
-		Required:    []string{"size_N+0", "size_N+1", "size_N-1", "size_far_above", "via_bdat", "via_data", "size_parameter", "earlier_transaction_BDAT_completed", "earlier_transaction_chunk_then_RSET", "earlier_transaction_BDAT_refused_for_size", "earlier_transaction_DATA_completed", "backend_reads_on_after_timeout_inside_message", "backend_copies_with_io.Copy", "size_parameter_with_leading_zeros"},
+		Required:    []string{"size_N+0", "size_N+1", "size_N-1", "size_far_above", "via_bdat", "via_data", "size_parameter", "earlier_transaction_BDAT_completed", "earlier_transaction_chunk_then_RSET", "earlier_transaction_BDAT_refused_for_size", "earlier_transaction_DATA_completed", "backend_reads_on_after_timeout_inside_message", "backend_copies_with_io.Copy", "size_parameter_with_leading_zeros", "chunk_size_beyond_63_bits_announced_first"},
 		Instr:       true,
 		QuickRuns:   200000, ThoroughRuns: 4000000,
 	})
